@@ -16,11 +16,11 @@ func init() {
 
 // envelope roles, found from the two exported entry points.
 type envRoles struct {
-	sign, verify     *ssa.Function
-	rules            *ssa.Function // func(*Headers) error called by both
-	digest           *ssa.Function // func(Algorithm, []byte) error called by both
-	setter           *ssa.Function // func(ProtectedHeader, *payload) ProtectedHeader
-	hashAcc          *ssa.Function // (ProtectedHeader).PayloadHashAlgorithm-like accessor used by verify
+	sign, verify *ssa.Function
+	rules        *ssa.Function // func(*Headers) error called by both
+	digest       *ssa.Function // func(Algorithm, []byte) error called by both
+	setter       *ssa.Function // func(ProtectedHeader, *payload) ProtectedHeader
+	hashAcc      *ssa.Function // (ProtectedHeader).PayloadHashAlgorithm-like accessor used by verify
 }
 
 func (P *Prog) envelopeRoles() *envRoles {
